@@ -41,36 +41,36 @@ CHECKS = {
          "Exploration with an exhaustive part: lists of 1-4 actions x lazy/eager x T in {3,60} x rapid-event-delay {0,5} plus 56 configurations with tap-hold items; every schedule of up to 6 (quick) / 7-8 (thorough) events with gaps {0,1,T-1,T,T+1} (10.6M / ~435M schedules), plus systematic 1-6 tap families with interrupting keys.",
          "A press exactly T after the previous one may be counted or start a new dance (both accepted, lost is not). More presses queued in one examination than list items, and lists with layer items: invariants only.",
          "DESIGN.md §4 C17"),
- "C18": ("reference model of press/release/tap/toggle compared after every operation and on the whole OS stream, identical across seven trigger paths (direct fake-key call as the TCP server makes it, on-press, on-release, legacy forms, macro item, defseq completion); tick-exact models for hold-for-duration (two durations on one key, activations while queued behind other events) and on-idle (idle count restarted by every input event) with the blocking predicate consulted every iteration",
-         "Exhaustive operation histories up to N=5 (quick) / 7 (thorough) over every (virtual key, operation) pair on four virtual-key sets x seven paths (376k / ~10M histories); 257k / 4.5M timed scenarios at every distance around the durations; 78k / 1.25M queued hold-for-duration scenarios with durations 1-5.",
+ "C18": ("reference model of press/release/tap/toggle compared after every operation and on the whole OS stream, identical across seven trigger paths (direct fake-key call as the TCP server makes it, on-press, on-release, legacy forms, macro item, defseq completion); tick-exact models for hold-for-duration (two durations on one key, activations while queued behind other events) and on-idle (idle count restarted by every input event, not counting while a hold-for-duration is pending) with the blocking predicate consulted every iteration; rapid-fire operation histories (gap 0/1/2, rolled keys, back-to-back direct calls)",
+         "Exhaustive operation histories up to N=5 (quick) / 7 (thorough) over every (virtual key, operation) pair on four virtual-key sets x seven paths (376k / ~10M histories); 257k / 4.5M timed scenarios at every distance around the durations; 78k / 1.25M queued hold-for-duration scenarios with durations 1-5; 239k / ~2M rapid-fire histories; 45k / ~400k on-idle + hold-for-duration scenarios.",
          "Operations are spaced so that each has taken effect before the next; macro virtual keys only tapped; keys that are not normal keys are held shorter than the idle duration (the guide does not say whether they keep kanata busy); no socket is opened for the TCP path.",
          "DESIGN.md §4 C18"),
  "C08": ("independent macro expander + trace checker over the OS stream projected onto each macro's private key alphabet (order, multiplicity, one step per tick, minimum delays, released at end/after cancellation at every step index, repeat restarts only while held); custom items of the macro and of keys typed meanwhile each exactly once; OS key state of modifiers shared with physical keys",
          "Exploration: 11k (quick) / 324k (thorough) cases over all eight macro variants: single, cancelled at every step index, repeating, delayed triggers, 2-4 concurrent, 5-8 concurrent (overflow), a second key with a custom action at every tick offset, a physical modifier shared with the macro released at every offset. With at most four concurrent macros everything must hold; a fifth macro cutting the oldest short is the listed known finding (documented limit), leaving its keys down is not.",
          "Group modifiers (S-(...)) may be released in any order (the guide does not fix it; chords must release in reverse). Exact tick of a custom item is not judged when another custom event competes for the tick (documented 'may need delays'). Trusted: simulated output.",
          "DESIGN.md §4 C08"),
- "C10": ("reference evaluator over the generator's own expression tree vs the real parser + Switch::actions (all truth assignments), plus end-to-end scenarios through the stepper (switch and fork witness keys) incl. history entries older than the 16-bit age counter",
-         "Exploration with exhaustive parts: every or/and/not forest up to size 7 (quick) / 8 (thorough) over three leaf families x all 8 assignments and all break/fallthrough patterns up to 5 cases (seed-independent); random depth-8 expressions with every item kind, thresholds on every key-timing compression edge; thousands of end-to-end scenarios incl. more than 8 firing cases; 2.4k / 6k systematic + 2k / 30k random scenarios with gaps of 65530..200000 ticks before key-timing is evaluated.",
+ "C10": ("reference evaluator over the generator's own expression tree vs the real parser + Switch::actions (all truth assignments), plus end-to-end scenarios through the stepper (switch and fork witness keys) incl. history entries older than the 16-bit age counter, switches evaluated while presses are still unprocessed (tap-hold / tap-dance / chord actions, bursts) and key tests while macros hold the keys",
+         "Exploration with exhaustive parts: every or/and/not forest up to size 7 (quick) / 8 (thorough) over three leaf families x all 8 assignments and all break/fallthrough patterns up to 5 cases (seed-independent); random depth-8 expressions with every item kind, thresholds on every key-timing compression edge; thousands of end-to-end scenarios incl. more than 8 firing cases; 2.4k / 6k systematic + 2k / 30k random scenarios with gaps of 65530..200000 ticks before key-timing is evaluated; 6k / 80k late-evaluation scenarios (14 kinds) and 600 / 8k macro-probe scenarios.",
          "lt = age <= q(t), gt = age > q(t) with the documented quantisation; ages are known only up to 65535 (saturating), the threshold 65535 on an older entry is not judged; zero-operand operators not generated.",
          "DESIGN.md §4 C10"),
- "C11": ("exhaustive stepper run over all 749 known codes in four mapping modes with repeats; name-table cross-check in every config position against pinned tables (cross-checked with linux/input-event-codes.h); native OsCode<->KeyCode value comparison; reserved no-op codes followed through every output path (41 scenario families x nop0-nop9 with an f24 control); defsrc identity enumerated over every option combination; mapped-set oracle on random configs; Miri lane (thorough) executes the real transmutes for all 768 values",
+ "C11": ("exhaustive stepper run over all 749 known codes in four mapping modes with repeats; name-table cross-check in every config position against pinned tables (cross-checked with linux/input-event-codes.h); native OsCode<->KeyCode value comparison; reserved no-op codes followed through every output path (41 scenario families x nop0-nop9 with an f24 control); defsrc identity enumerated over every option combination; coordinate (0,0) inspected and driven (v2 chords, macros, code 0) on 11 232 configurations with any-key wildcards; mapped-set oracle on random configs; Miri lane (thorough) executes the real transmutes for all 768 values",
          "Exhaustive over the finite code/name space (identity, names, discriminants); 20 768 (quick) / 62 304 (thorough) option x layer-shape configurations for the defsrc identity; 9k / 265k runs of the reserved-code families; 10k / 100k random configs for the mapped set.",
          "Expected exceptions are the measured ones of DESIGN.md §4 C11 (No and reserved codes silent, mouse pseudo keys as button/scroll events). arbitrary-code is not judged (the user asks for the code). The Miri lane is skipped (recorded, not failed) if cargo +nightly miri is unavailable.",
          "DESIGN.md §4 C11"),
- "C12": ("independent expansion of accepted defseq tables into typed orderings + prefix check (parser half); trace monitor with witness macros per virtual key over every ordering, every proper prefix + foreign key, T-1/T/T+1 timeouts, three input modes and three leaders (runtime half)",
-         "Exploration: ~60k tables parsed and ~0.9M typing scenarios (quick), 8x that in thorough; 38 fixed tables identical for every seed. Four structural classes around O-(...) groups are listed known findings; every other class is live.",
+ "C12": ("independent expansion of accepted defseq tables into typed orderings + prefix check (parser half); trace monitor with witness macros per virtual key over every ordering, every proper prefix + foreign key, T-1/T/T+1 timeouts, three input modes and three leaders (runtime half); modifier family (bare modifier keys as members, tapped / held, unrelated modifier held, sequence-backtrack-modcancel absent / yes / no) against a token model of the guide's modcancel rule",
+         "Exploration: ~60k tables parsed and ~0.9M typing scenarios (quick), 8x that in thorough; 38 fixed tables identical for every seed. Four structural classes around O-(...) groups and one about right-hand modifier keys as members are listed known findings; every other class is live.",
          "Only accepted => prefix-free is judged; tables with chorded members run with sequence-backtrack-modcancel no; bare modifiers are not sequence members; always-on + hidden-suppressed excluded.",
          "DESIGN.md §4 C12"),
- "C13": ("executable set-based spec of the statement vs Overrides::override_keys on parser-built tables (all ordered key lists up to length 3/4), plus per-tick comparison through the stepper with override-release-on-activation yes/no, layers that permute the key universe (overrides on the output codes) and OS repeats",
+ "C13": ("executable set-based spec of the statement vs Overrides::override_keys on parser-built tables (all ordered key lists up to length 3/4), plus per-tick comparison through the stepper with override-release-on-activation yes/no, layers that permute the key universe (overrides on the output codes), OS repeats, follow-up events at gap 0/1/2 behind every activation, and spacing independence (every history re-run with events 4 ticks apart)",
          "Exhaustive key lists per table (1 886 / 19 046 lists) over 256 systematic + 6 000 random tables, and 12k / 100k random histories through the full pipeline incl. 80 systematic remapped-key cases. The order-sensitivity of the implementation is the listed known finding, classified by the modifiers-first re-ordering test; every other deviation is live.",
          "On an equal-modifier-count tie either entry is accepted (the statement does not decide). Layer mappings are injective.",
          "DESIGN.md §4 C13"),
- "C14": ("invariant monitor on the OS model at every injected Repeat (at most one output, only for a key that is down) + completeness under the stated precondition with private output alphabets per key, overrides whose inputs/outputs are keys the judged cells list (incl. 2-3-link chains)",
-         "Exploration: 20k (quick) / 300k (thorough) configs over every key-producing action form nested to depth 3 on 1-3 layers with overrides, held layers, switched base layer, three sequence modes; repeats injected at random points incl. pending decisions and sequence mode. One structural class is a listed known finding (a key pressed while a hidden sequence was typed never reached the OS but is repeated afterwards - documented upstream as BUG(sequences)); six other classes found by this check were repaired in /repo.",
+ "C14": ("invariant monitor on the OS model at every injected Repeat (at most one output, only for a key that is down) + completeness under the stated precondition with private output alphabets per key, overrides whose inputs/outputs are keys the judged cells list (incl. 2-3-link chains, modifier-only swaps, outputs held by other keys), keys in 2-4 v2 chords with disabled layers",
+         "Exploration: 20k (quick) / 300k (thorough) configs over every key-producing action form nested to depth 3 on 1-3 layers with overrides, held layers, switched base layer, three sequence modes; repeats injected at random points incl. pending decisions and sequence mode. Two structural classes are listed known findings (a key pressed while a hidden sequence was typed never reached the OS but is repeated afterwards - documented upstream as BUG(sequences); a modifier released by a visible-backspaced completion repeated in the same millisecond); seven other classes found by this check were repaired in /repo.",
          "override-release-on-activation yes not generated; completeness not judged for keys pressed during a pending decision; allow-hardware-repeat is an OS-layer filter and ignored.",
          "DESIGN.md §4 C14, §9.3"),
- "C16": ("metamorphic: thirteen semantically neutral rewrites (defalias, defvar atom/list/concat, variable chains in and against definition order, deftemplate with and without conditionals, nested conditionals, top-level forms in templates, include, platform wrap + decoy, deflayer->deflayermap) singly, as ordered pairs on the same item and composed; compare accept/reject, parsed artefacts and OS traces",
-         "Exploration: 11k (quick) / 81k (thorough) generated configs, ~30k rewritten variants, 2 random histories each; the first 1066 cases apply each rewrite kind singly and every ordered pair, identical for every seed.",
+ "C16": ("metamorphic: fifteen semantically neutral rewrites (defalias, defvar atom/list/concat, variable chains in and against definition order, deftemplate with and without conditionals, templates with 2-4 parameters in every order whose arguments contain variables named like other parameters, nested conditionals, top-level forms in templates, include, platform wrap + decoy, deflayer->deflayermap) singly, as ordered pairs on the same item and composed; compare accept/reject, parsed artefacts and OS traces",
+         "Exploration: 11k (quick) / 81k (thorough) generated configs, ~30k rewritten variants, 2 random histories each; the first 1350 cases apply each rewrite kind singly and every ordered pair, identical for every seed.",
          "Rewrite sites restricted to where the guide promises neutrality (not in defvirtualkeys, defchords, macros). rpt-any, dynamic macros, delays and chords v2 excluded from the profile. Forward variable references are judged because the code resolves at the use site and the guide promises substitution 'wherever the variable is used'.",
          "DESIGN.md §4 C16"),
  "C19": ("relational oracle: replay output vs a twin run that types the recorded portion again (order; with recorded delays also kanata-internal timing), plus invariants (nothing down after replay, recording stops at the limit, replay ends within a bound derived from the recorded lengths) and all 512 play graphs over three macros with marker keys counting how often each macro's content is replayed",
